@@ -185,3 +185,76 @@ func verif_harness_C20_two_observes() {
 		_ = i
 	}
 }
+
+// verifRegisterer models a Prometheus registry at the Registerer interface:
+// it accepts collectors and may refuse the k-th one, with a plain error or with
+// AlreadyRegisteredError (what a real registry answers to a second Metrics
+// instance, whose descriptors clash with the first one's).
+type verifRegisterer struct {
+	accepted []prometheus.Collector
+	existing prometheus.Collector // what the registry already exports instead of the refused collector
+	refuseAt int
+	already  bool
+	calls    int
+}
+
+type verifPlainError struct{}
+
+func (verifPlainError) Error() string { return "model: descriptor rejected" }
+
+func (r *verifRegisterer) Register(c prometheus.Collector) error {
+	k := r.calls
+	r.calls++
+	if k == r.refuseAt {
+		if r.already {
+			switch c.(type) {
+			case *prometheus.HistogramVec:
+				r.existing = &prometheus.HistogramVec{}
+			default:
+				r.existing = &prometheus.CounterVec{}
+			}
+			return prometheus.AlreadyRegisteredError{ExistingCollector: r.existing, NewCollector: c}
+		}
+		return verifPlainError{}
+	}
+	r.accepted = append(r.accepted, c)
+	return nil
+}
+func (r *verifRegisterer) MustRegister(cs ...prometheus.Collector) { panic("model: not used") }
+func (r *verifRegisterer) Unregister(c prometheus.Collector) bool  { return false }
+
+// C20 — values can only equal the sums if the collectors this instance
+// updates are the ones the registry exports: Register succeeds when the
+// registry accepts every collector, offers each once, and whenever it reports
+// success each of the instance's four collectors is exported — accepted by the
+// registry, or the already-registered collector the registry pointed to.
+//
+//verif:harness unwind=16 replay=none
+func verif_harness_C20_register() {
+	if !verif_is_symbolic_run() {
+		return
+	}
+	pm := &Metrics{
+		requestLatencyHistogram: &prometheus.HistogramVec{},
+		requestBytesInCounter:   &prometheus.CounterVec{},
+		requestBytesOutCounter:  &prometheus.CounterVec{},
+		requestFailCounter:      &prometheus.CounterVec{},
+	}
+	r := &verifRegisterer{refuseAt: verif_choose("refused_collector", 5), already: verif_nondet_bool("already_registered")}
+	err := pm.Register(r)
+	if r.refuseAt >= 4 {
+		verif_assert(err == nil, "C20.register.succeeds-when-all-accepted")
+		verif_assert(len(r.accepted) == 4, "C20.register.offers-each-collector-once")
+	}
+	if err == nil {
+		exported := map[prometheus.Collector]bool{}
+		for _, c := range r.accepted {
+			exported[c] = true
+		}
+		if r.existing != nil {
+			exported[r.existing] = true
+		}
+		verif_assert(exported[pm.requestLatencyHistogram] && exported[pm.requestBytesInCounter] && exported[pm.requestBytesOutCounter] && exported[pm.requestFailCounter],
+			"C20.register.success-means-all-four-collectors-are-exported")
+	}
+}
